@@ -66,6 +66,15 @@ func genLoopCfg(r *rand.Rand, i int) loopCfg {
 	c.LateReverse = r.Intn(5) == 0
 	c.Clients = 2 + r.Intn(2)
 	c.OpsPerClient = []int{8, 12, 18}[r.Intn(3)]
+	c.KeyExists = "replace"
+	if c.Snapshot {
+		switch r.Intn(6) {
+		case 0, 1:
+			c.Preload, c.KeyExists = true, "ignore"
+		case 2:
+			c.Preload = true
+		}
+	}
 	return c
 }
 
@@ -149,7 +158,7 @@ func oneLoop(run *harness.Run, key string, r *rand.Rand, c loopCfg) {
 	defer A.srv.Close()
 	defer B.srv.Close()
 	env := &loopEnv{key: key, cfg: c, sites: map[string]*site{"A": A, "B": B}, dataset: map[string][]rdbx.Key{}, lateSnapOff: -1,
-		issued: map[string][]issued{}, snapDone: map[string]bool{}, quietFrom: map[string]int{}, idleMarks: map[string][]int{}}
+		issued: map[string][]issued{}, snapDone: map[string]bool{}, preloaded: map[string]bool{}, quietFrom: map[string]int{}, idleMarks: map[string][]int{}}
 
 	A.snapshotCopiesOwn = c.LateReverse // set before any traffic; read by A's hooks only
 	snapA := drive.EmptyRDB
@@ -157,6 +166,17 @@ func oneLoop(run *harness.Run, key string, r *rand.Rand, c loopCfg) {
 		env.dataset["A"] = genDataset(r, "A", now)
 		loadDataset(A, env.dataset["A"])
 		snapA = encodeSnapshot(env.dataset["A"])
+		if c.Preload {
+			var pre []rdbx.Key
+			for i, k := range env.dataset["A"] {
+				if i%2 == 0 {
+					pre = append(pre, k)
+					env.preloaded[lastID([][]byte{k.Key})] = true
+				}
+			}
+			loadDataset(B, pre)
+			run.Count("loops_with_snapshot_keys_already_at_the_peer|keyExists="+c.KeyExists, 1)
+		}
 	}
 
 	ctx, cancelAll := context.WithCancel(context.Background())
